@@ -128,7 +128,7 @@ def classify(ir, cfg, d):
             (field == "doc" and how == "changed") or (field == "typ" and (how == "lost" or how.startswith("union->")))):
         mech = "docstring.google.returns-without-args"
     elif edd and where in ("param", "return") and dk == "none" and field == "default" and how == "value" and got in (
-            repr("```(None)```"), repr("None")):
+            repr("(None)"), repr("None")):
         mech = "docstring.none-default-becomes-text"
     elif edd and where == "parse" and how == "TypeError" and "none" in dkinds:
         mech = "docstring.none-default-becomes-text"
